@@ -147,7 +147,7 @@ def module_of_file(path):
     return first
 
 
-def build_with_skips(crate_dir, crate_name, features=(), cfgs=(), max_rounds=4, quiet=False):
+def build_with_skips(crate_dir, crate_name, features=(), cfgs=(), max_rounds=4, quiet=False, attribute=None):
     """Compile a witness crate; modules that fail to compile are attributed by file, skipped with
     `--cfg skip_<module>`, and the crate is compiled again so the survivors reach the analyses.
     Returns (facts, failures: {module: [diagnostics]}, wall_s)."""
@@ -166,7 +166,7 @@ def build_with_skips(crate_dir, crate_name, features=(), cfgs=(), max_rounds=4, 
             mods = set()
             for s in d["spans"]:
                 if s["primary"]:
-                    m = module_of_file(s["file"])
+                    m = attribute(s) if attribute else module_of_file(s["file"])
                     if m:
                         mods.add(m)
             if not mods:
